@@ -116,12 +116,14 @@ def fill_scripts(rng, case, paths_by_variant):
             if style == "near_unmodified":
                 # a complete local file whose date is the announced one, or one second off (same size):
                 # only the former is "unmodified"
+                # ... and a stale local file of ANOTHER size that the (lagging) server still describes exactly
                 base = vsize if vsize > 0 else rng.randint(1, 30)
-                d = rng.choice([DATES[0], DATES[0] + 1, DATES[0] - 1])
-                case["scripts"][p] = {"first": [], "rest": {"pre": 0, "kind": "ok", "ann": base, "date": d,
-                                                            "delivered": base, "aborts": False}}
+                local = rng.choice([base, base, base + 1, max(base - 1, 1)])
+                d = rng.choice([DATES[0], DATES[0], DATES[0] + 1, DATES[0] - 1])
+                case["scripts"][p] = {"first": [], "rest": {"pre": 0, "kind": "ok", "ann": local, "date": d,
+                                                            "delivered": local, "aborts": False}}
                 if not case.get("blocked"):
-                    case["fs"][p] = {"size": base, "mtime": DATES[0]}
+                    case["fs"][p] = {"size": local, "mtime": DATES[0]}
                 continue
             if style == "all_good":
                 first, rest = [], gen_good(rng, vsize)
